@@ -8,12 +8,15 @@ package main
 
 import (
 	"bytes"
+	"encoding/json"
 	"fmt"
 	"io"
 	"net"
 	"net/http"
+	"net/http/httptest"
 	"os"
 	"path/filepath"
+	"runtime"
 	"strconv"
 	"strings"
 	"sync"
@@ -541,5 +544,301 @@ func init() {
 			rs = append(rs, r)
 		}
 		return Obs{"rs": rs}
+	})
+}
+
+// ---------------------------------------------------------------------------
+// concurrent logins against a gated TLS backend (suite "conc")
+
+// heldConn delays the first Read (the TLS ClientHello) until its gate is open:
+// the client's request stays unsent inside the handshake meanwhile.
+type c04HeldConn struct {
+	net.Conn
+	gate <-chan struct{}
+}
+
+func (c *c04HeldConn) Read(b []byte) (int, error) {
+	<-c.gate
+	return c.Conn.Read(b)
+}
+
+type c04Gated struct {
+	srv      *httptest.Server
+	mu       sync.Mutex
+	gate     chan struct{}
+	accepted chan struct{}
+	accept   map[[2]string]bool
+	recs     []map[string]interface{}
+}
+
+type c04GateListener struct {
+	net.Listener
+	g *c04Gated
+}
+
+func (l *c04GateListener) Accept() (net.Conn, error) {
+	conn, err := l.Listener.Accept()
+	if err != nil {
+		return nil, err
+	}
+	l.g.mu.Lock()
+	gate := l.g.gate
+	l.g.mu.Unlock()
+	select {
+	case l.g.accepted <- struct{}{}:
+	default:
+	}
+	return &c04HeldConn{Conn: conn, gate: gate}, nil
+}
+
+var c04g *c04Gated
+
+// the backend is a function of the body it receives: it accepts exactly the
+// listed (email, password) pairs, read from the body with encoding/json
+func c04GatedGet() *c04Gated {
+	if c04g != nil {
+		return c04g
+	}
+	g := &c04Gated{accepted: make(chan struct{}, 256), gate: make(chan struct{}), accept: map[[2]string]bool{}}
+	g.srv = httptest.NewUnstartedServer(http.HandlerFunc(func(rw http.ResponseWriter, r *http.Request) {
+		body, _ := io.ReadAll(r.Body)
+		var c struct {
+			Email    string `json:"email"`
+			Password string `json:"password"`
+		}
+		ok := false
+		if err := json.Unmarshal(body, &c); err == nil {
+			g.mu.Lock()
+			ok = g.accept[[2]string{c.Email, c.Password}]
+			g.mu.Unlock()
+		}
+		g.mu.Lock()
+		g.recs = append(g.recs, map[string]interface{}{"body": bs(string(body)), "accepted": ok})
+		g.mu.Unlock()
+		if ok {
+			rw.WriteHeader(200)
+		} else {
+			rw.WriteHeader(401)
+		}
+	}))
+	g.srv.Listener = &c04GateListener{Listener: g.srv.Listener, g: g}
+	g.srv.Config.ErrorLog = nil
+	g.srv.StartTLS()
+	c04g = g
+	return g
+}
+
+func (g *c04Gated) newRound(pairs [][2]string) {
+	g.mu.Lock()
+	g.gate = make(chan struct{})
+	g.accept = map[[2]string]bool{}
+	for _, p := range pairs {
+		g.accept[p] = true
+	}
+	g.recs = nil
+	g.mu.Unlock()
+	for {
+		select {
+		case <-g.accepted:
+			continue
+		default:
+		}
+		break
+	}
+}
+
+func (g *c04Gated) release() {
+	g.mu.Lock()
+	close(g.gate)
+	g.mu.Unlock()
+}
+
+func init() {
+	// c04_conc: rounds of sessions that are started one after the other, each
+	// held inside the handshake to the backend, and released together.
+	// {"op":"c04_conc","procs":1,"domain":..,"hold_ms":..,"rounds":[{"accept":[[email,pw]..],
+	//   "sessions":[{"kind":"direct"|"login"|"authplain"|"sasl","u","p","tag","line","blob"}]}]}
+	register("c04_conc", func(w *World, op Op) Obs {
+		if p := op.num("procs", 0); p > 0 {
+			defer runtime.GOMAXPROCS(runtime.GOMAXPROCS(p))
+		}
+		g := c04GatedGet()
+		url := g.srv.URL + "/auth"
+		domain := op.str("domain")
+		cfg := "domain: " + c04YamlQ(domain) + "\nauth_server_url: " + c04YamlQ(url) + "\n"
+		_ = os.WriteFile(filepath.Join(w.root, "raven.yaml"), []byte(cfg), 0600)
+		hold := time.Duration(op.num("hold_ms", 1500)) * time.Millisecond
+
+		var saslSock string
+		var saslSrv *sasl.Server
+		defer func() {
+			if saslSrv != nil {
+				_ = saslSrv.Shutdown()
+			}
+		}()
+		needSasl := func() string {
+			if saslSrv != nil {
+				return saslSock
+			}
+			saslSock = filepath.Join(w.root, fmt.Sprintf("saslc%d.sock", time.Now().UnixNano()%100000))
+			saslSrv = sasl.NewServer(saslSock, "", url, domain)
+			go func() { _ = saslSrv.Start() }()
+			for i := 0; i < 200; i++ {
+				if c, err := net.Dial("unix", saslSock); err == nil {
+					_ = c.Close()
+					break
+				}
+				time.Sleep(10 * time.Millisecond)
+			}
+			return saslSock
+		}
+
+		rounds, _ := op["rounds"].([]interface{})
+		var out []interface{}
+		for _, rr := range rounds {
+			rm, _ := rr.(map[string]interface{})
+			ro := Op(rm)
+			var pairs [][2]string
+			if l, ok := ro["accept"].([]interface{}); ok {
+				for _, e := range l {
+					if pr, ok := e.([]interface{}); ok && len(pr) == 2 {
+						a, _ := pr[0].(string)
+						b, _ := pr[1].(string)
+						pairs = append(pairs, [2]string{string(s2b(a)), string(s2b(b))})
+					}
+				}
+			}
+			g.newRound(pairs)
+			sessions := c04Cases(Op{"cases": ro["sessions"]})
+			type live struct {
+				kind string
+				tag  string
+				name string
+				conn net.Conn
+				done chan struct{}
+				st   *models.ClientState
+				bc   *bufConn
+				res  map[string]interface{}
+			}
+			lives := make([]*live, len(sessions))
+			for i, se := range sessions {
+				lv := &live{kind: se.str("kind"), tag: se.str("tag"), res: map[string]interface{}{}}
+				lives[i] = lv
+				switch lv.kind {
+				case "direct":
+					lv.done = make(chan struct{})
+					lv.st = &models.ClientState{}
+					lv.bc = &bufConn{}
+					go func(lv *live, u, p string) {
+						defer close(lv.done)
+						defer func() {
+							if e := recover(); e != nil {
+								lv.res["panic"] = fmt.Sprint(e)
+							}
+						}()
+						auth.VerifAuthenticateUser(w.imap, lv.bc, "T", u, p, lv.st)
+					}(lv, se.str("u"), se.str("p"))
+				case "login", "authplain":
+					c04seq++
+					lv.name = fmt.Sprintf("c04c%d", c04seq)
+					opOpen(w, Op{"conn": lv.name, "kind": "tls"})
+					cl := w.conns[lv.name]
+					if lv.kind == "authplain" {
+						o := opSend(w, Op{"conn": lv.name, "data": b2s([]byte(lv.tag + " AUTHENTICATE PLAIN\r\n")), "until": "cont:" + lv.tag, "timeout_ms": float64(3000)})
+						lv.res["first"] = o["recv"]
+						_ = cl.conn.SetWriteDeadline(time.Now().Add(3 * time.Second))
+						_, _ = cl.conn.Write([]byte(se.str("blob")))
+					} else {
+						_ = cl.conn.SetWriteDeadline(time.Now().Add(3 * time.Second))
+						_, _ = cl.conn.Write([]byte(se.str("line")))
+					}
+				case "sasl":
+					c, err := net.Dial("unix", needSasl())
+					if err != nil {
+						lv.res["error"] = err.Error()
+						continue
+					}
+					lv.conn = c
+					_, _ = c.Write([]byte(se.str("line") + "\n"))
+				}
+				// wait until this session's connection to the backend is accepted
+				// (its request is now held, unsent, inside the handshake)
+				select {
+				case <-g.accepted:
+				case <-time.After(hold):
+					lv.res["not_accepted"] = true
+				}
+			}
+			g.release()
+			for i, lv := range lives {
+				_ = i
+				switch lv.kind {
+				case "direct":
+					select {
+					case <-lv.done:
+					case <-time.After(15 * time.Second):
+						lv.res["timeout"] = true
+						continue
+					}
+					lv.res["wrote"] = bs(lv.bc.buf.String())
+					lv.res["authed"] = lv.st.Authenticated
+					if lv.st.Authenticated {
+						lv.res["row"] = c04UserRow(w, lv.st.UserID)
+					}
+				case "login", "authplain":
+					cl := w.conns[lv.name]
+					b, how := cl.readUntil(taggedDone(lv.tag), 15*time.Second)
+					lv.res["recv"] = b2s(b)
+					lv.res["how"] = how
+					if strings.HasPrefix(string(b), lv.tag+" OK") {
+						marker := "c04mk" + lv.name
+						o2 := opSend(w, Op{"conn": lv.name, "data": "m1 CREATE " + marker + "\r\n", "until": "tag:m1", "timeout_ms": float64(5000)})
+						lv.res["create"] = o2["recv"]
+						lv.res["stores"] = c04MarkerStore(w, marker)
+					}
+					cl.close()
+					delete(w.conns, lv.name)
+				case "sasl":
+					if lv.conn == nil {
+						continue
+					}
+					if uc, ok := lv.conn.(*net.UnixConn); ok {
+						_ = uc.CloseWrite()
+					}
+					var got []byte
+					tmp := make([]byte, 65536)
+					how := "eof"
+					deadline := time.Now().Add(15 * time.Second)
+					for {
+						_ = lv.conn.SetReadDeadline(deadline)
+						n, err := lv.conn.Read(tmp)
+						got = append(got, tmp[:n]...)
+						if err != nil {
+							if err != io.EOF {
+								how = "timeout-or-error"
+							}
+							break
+						}
+					}
+					_ = lv.conn.Close()
+					lv.res["wrote"] = b2s(got)
+					lv.res["how"] = how
+				}
+			}
+			// give late requests (none on a correct tree) a moment, then read the record
+			time.Sleep(20 * time.Millisecond)
+			g.mu.Lock()
+			recs := make([]interface{}, len(g.recs))
+			for i, r := range g.recs {
+				recs[i] = r
+			}
+			g.mu.Unlock()
+			ss := make([]interface{}, len(lives))
+			for i, lv := range lives {
+				ss[i] = lv.res
+			}
+			out = append(out, map[string]interface{}{"sessions": ss, "backend": recs})
+		}
+		return Obs{"rounds": out}
 	})
 }
